@@ -121,8 +121,16 @@ pub fn check_selection_with(input: &[u8], build: &dyn Fn() -> Outcome) -> (Vec<(
             return (out, None, Some(digest));
         }
     };
-    if cands.is_empty() {
-        // the recorder was never reached (hook H2 removed or the loop restructured): decide black-box.
+    let covers = {
+        let mut seen = [false; 8];
+        for c in &cands {
+            seen[c.mask as usize & 7] = true;
+        }
+        cands.len() == 8 && seen.iter().all(|&s| s)
+    };
+    if !covers {
+        // the recorder was not reached once per mask (hook H2 removed, the loop restructured, or a search that gives up
+        // on candidates which cannot win any more - which the property permits): decide black-box.
         // Candidate k = the forced-mask-k build with its format modules blanked, which is how the crate
         // prepares candidates at the pinned commit (format information is written after the selection).
         BLACKBOX.fetch_add(1, Ordering::Relaxed);
@@ -149,18 +157,6 @@ pub fn check_selection_with(input: &[u8], build: &dyn Fn() -> Outcome) -> (Vec<(
             out.push(("not-minimal".into(), format!("v{}: emitted mask {} has documented penalty {} but mask {} has {} (all eight, black-box: {:?})", v, emitted, pens[emitted].0, best, min_hi, pens.iter().map(|p| p.1).collect::<Vec<_>>())));
         }
         return (out, Some(Selection { emitted, pens, used: [0; 8] }), Some(digest));
-    }
-    if cands.len() != 8 {
-        out.push(("candidate-count".into(), format!("{} mask candidates were tried instead of 8", cands.len())));
-        return (out, None, Some(digest));
-    }
-    let mut seen = [false; 8];
-    for c in &cands {
-        seen[c.mask as usize] = true;
-    }
-    if seen.iter().any(|&s| !s) {
-        out.push(("candidate-masks".into(), format!("candidates do not cover the 8 masks once each: {:?}", cands.iter().map(|c| c.mask as usize).collect::<Vec<_>>())));
-        return (out, None, Some(digest));
     }
     let enc: Vec<bool> = g.reg.iter().map(|&x| x == Reg::Data).collect();
     let mut pens = [(0u32, 0u32); 8];
@@ -311,7 +307,7 @@ pub fn run(ctx: &Ctx) -> Collector {
             (pens[k] - other).abs() <= 60
         };
         type Wanted = Box<dyn Fn(usize, usize) -> Option<bool> + Send + Sync>;
-        let mut designs: Vec<(usize, usize, u64, Wanted)> = vec![];
+        let mut designs: Vec<(usize, usize, u64, Wanted, u64)> = vec![];
         for &(v, e) in &[(10usize, 0usize), (12, 0)] {
             let n = r::side(v);
             let ok = spaces::data_codeword_modules(v, e);
@@ -356,7 +352,7 @@ pub fn run(ctx: &Ctx) -> Collector {
                         } else {
                             None
                         }
-                    })));
+                    }), scan));
                 }
             }
             // a dark 2x2 block across the boundary between columns 63 and 64 (version 12 only: side 65)
@@ -370,12 +366,62 @@ pub fn run(ctx: &Ctx) -> Collector {
                         } else {
                             None
                         }
-                    })));
+                    }), scan));
+                }
+            }
+        }
+        // version 40: a line that changes colour at every module for about 160 modules and ends in a run of six, or
+        // in the 1011101 window followed by four light modules (a scan that keeps a bounded list of stretches per line
+        // runs out of room exactly there)
+        {
+            let (v, e) = (40usize, 0usize);
+            let n = r::side(v);
+            let ok = spaces::data_codeword_modules(v, e);
+            let alt = |len: usize| -> Vec<bool> { (0..len).map(|i| i % 2 == 0).collect() };
+            let long_feats: Vec<Vec<bool>> = vec![
+                [alt(161), vec![true; 6], vec![false]].concat(),
+                [alt(157), vec![true, false, true, true, true, false, true], vec![false; 4]].concat(),
+                [vec![false], vec![true; 6], alt(161)].concat(),
+            ];
+            let need = 168usize;
+            let mut col_at = None;
+            'c40: for x in (9..n).rev() {
+                for y0 in 9..=n - need {
+                    if (0..need).all(|d| ok[(y0 + d) * n + x]) {
+                        col_at = Some((x, y0));
+                        break 'c40;
+                    }
+                }
+            }
+            let mut row_at = None;
+            'r40: for y in (9..n).rev() {
+                for x0 in 9..=n - need {
+                    if (0..need).all(|d| ok[y * n + x0 + d]) {
+                        row_at = Some((y, x0));
+                        break 'r40;
+                    }
+                }
+            }
+            for (fi, feat) in long_feats.iter().enumerate() {
+                for vertical in [false, true] {
+                    let (a, b0) = match if vertical { col_at } else { row_at } {
+                        Some(t) => t,
+                        None => continue,
+                    };
+                    let feat = feat.clone();
+                    designs.push((v, e, 200 + fi as u64, Box::new(move |y: usize, x: usize| -> Option<bool> {
+                        let (line, pos) = if vertical { (x, y) } else { (y, x) };
+                        if line == a && pos >= b0 && pos < b0 + feat.len() {
+                            Some(feat[pos - b0])
+                        } else {
+                            None
+                        }
+                    }), scan / 4));
                 }
             }
         }
         let workers = std::thread::available_parallelism().map(|n| n.get()).unwrap_or(4).min(16) as u64;
-        let mut kept: Vec<(usize, u64, Vec<u8>, usize, usize)> = vec![];
+        let mut kept: Vec<(usize, u64, Vec<u8>, usize, usize, bool)> = vec![];
         std::thread::scope(|sc| {
             let mut hs = vec![];
             for w in 0..workers {
@@ -383,13 +429,21 @@ pub fn run(ctx: &Ctx) -> Collector {
                 let close_race = &close_race;
                 hs.push(sc.spawn(move || {
                     let mut mine = vec![];
-                    for (di, (v, e, tag, wanted)) in designs.iter().enumerate() {
+                    for (di, (v, e, tag, wanted, scan)) in designs.iter().enumerate() {
                         let mut seed = w;
-                        while seed < scan {
+                        while seed < *scan {
                             let k = (seed % 8) as usize;
                             let p = spaces::payload_for_candidate(*v, *e, k, seed * 31 + tag, wanted.as_ref());
-                            if seed < plain || close_race(*v, *e, k, &p) {
-                                mine.push((di, seed, p, *v, *e));
+                            if seed < plain.min(*scan / 10) || close_race(*v, *e, k, &p) {
+                                // the design must be there: candidate k of R shows every wanted module
+                                let n = r::side(*v);
+                                let vals = r::encode_symbol(&p, 2, *e, *v, k);
+                                let realized = (0..n * n).all(|i| wanted(i / n, i % n).map_or(true, |w| vals[i] == w));
+                                if !realized && std::env::var("FQV_C11_DEBUG").is_ok() {
+                                    let bad: Vec<(usize, usize)> = (0..n * n).filter(|&i| wanted(i / n, i % n).map_or(false, |w| vals[i] != w)).map(|i| (i / n, i % n)).collect();
+                                    eprintln!("UNREALIZED v{} tag {} k {} seed {}: {} modules, first {:?}", v, tag, k, seed, bad.len(), &bad[..bad.len().min(12)]);
+                                }
+                                mine.push((di, seed, p, *v, *e, realized));
                             }
                             seed += workers;
                         }
@@ -404,10 +458,15 @@ pub fn run(ctx: &Ctx) -> Collector {
         kept.sort_by(|a, b| (a.0, a.1).cmp(&(b.0, b.1)));
         let n_designs = designs.len();
         let mut cases = vec![];
-        for (_, _, p, v, e) in kept {
+        let unrealized = kept.iter().filter(|k| !k.5).count();
+        if unrealized > 0 {
+            let which: std::collections::BTreeSet<(usize, u64)> = kept.iter().filter(|k| !k.5).map(|k| (k.3, designs[k.0].2)).collect();
+            col.machinery_error(format!("S_planted: {} of {} designed payloads do not show their design in R's candidate (version, design tag: {:?})", unrealized, kept.len(), which));
+        }
+        for (_, _, p, v, e, _) in kept {
             cases.push(Case::new(p, Opts { mode: Some(2), ecl: Some(e as u8), version: Some(v as u8), mask: None, order: 0 }));
         }
-        spaces_v.push(Space { name: "S_planted".into(), describe: format!("designed selection instances on versions 10 and 12 (level L): a pseudo-random candidate k with one planted feature (1011101 next to a run of 33, a run followed by the window, runs of lengths 5/6/31/32, a 2x2 block across columns 63/64), horizontally and vertically; {} designs x {} seeds searched with R, kept: the first {} seeds of each design and every seed where the planted candidate wins or loses the documented selection by at most 60 points", n_designs, scan, plain), cases, exhaustive: true });
+        spaces_v.push(Space { name: "S_planted".into(), describe: format!("designed selection instances on versions 10 and 12 (level L): a pseudo-random candidate k with one planted feature (1011101 next to a run of 33, a run followed by the window, runs of lengths 5/6/31/32, a 2x2 block across columns 63/64) and on version 40 (about 160 colour changes in one line followed by a run of six or by the window), horizontally and vertically; {} designs x {} seeds searched with R, kept: the first {} seeds of each design and every seed where the planted candidate wins or loses the documented selection by at most 60 points", n_designs, scan, plain), cases, exhaustive: true });
     }
     {
         let mut sp = spaces::s_antimask(thorough);
